@@ -163,6 +163,8 @@ def run_impl(case):
     if k["fill"] is not None:
         kwargs["fill_value"] = k["fill"]
     axis = k["axes"] if len(k["axes"]) > 1 or k.get("axis_as_list") else k["axes"][0]
+    if isinstance(axis, list) and len(case["vals"]) % 3 == 0:
+        axis = tuple(axis)              # a tuple of axis names is a sequence of axes like a list
     try:
         if case.get("warmup"):
             # nothing is carried from one call to the next: the same call on other values first
